@@ -16,6 +16,9 @@ import (
 	ethtypes "github.com/ethereum/go-ethereum/core/types"
 	"github.com/ethereum/go-ethereum/crypto"
 
+	stakingkeeper "github.com/cosmos/cosmos-sdk/x/staking/keeper"
+	stakingtypes "github.com/cosmos/cosmos-sdk/x/staking/types"
+
 	fxtypes "github.com/functionx/fx-core/v8/types"
 	crosschaintypes "github.com/functionx/fx-core/v8/x/crosschain/types"
 	fxstakingtypes "github.com/functionx/fx-core/v8/x/staking/types"
@@ -38,6 +41,7 @@ type World struct {
 	val1  sdk.ValAddress
 	fx    *lib.Token
 	base  sdk.Context // branch of the block context with the world prepared; never written back
+	basePeriod uint64 // distribution period of validator 1 in base
 }
 
 func NewWorld(seed int64) *World {
@@ -53,10 +57,38 @@ func NewWorld(seed int64) *World {
 		a := frameAddr(i)
 		c.Mint(a.Bytes(), lib.FX(100))
 		c.App.StakingKeeper.SetAllowance(c.Ctx, w.val1, w.owner.Acc(), a.Bytes(), big.NewInt(ownerAllow))
+		// every frame contract already delegates to validator 1 (delegationRewards has something to compute)
+		c.EnsureAccount(c.Ctx, a.Bytes())
+		_, err := stakingkeeper.NewMsgServerImpl(c.App.StakingKeeper.Keeper).Delegate(c.Ctx, &stakingtypes.MsgDelegate{
+			DelegatorAddress: sdk.AccAddress(a.Bytes()).String(), ValidatorAddress: w.val1.String(), Amount: lib.FX(1)})
+		lib.Must(err)
 	}
 	lib.Must(c.NextBlock())
+	lib.Must(c.NextBlock())
 	w.base, _ = c.Ctx.CacheContext()
+	w.basePeriod = w.period(w.base)
+	w.probeRewards()
 	return w
+}
+
+func (w *World) period(ctx sdk.Context) uint64 {
+	cr, err := w.c.App.DistrKeeper.GetValidatorCurrentRewards(ctx, w.val1)
+	lib.Must(err)
+	return cr.Period
+}
+
+// probeRewards: call delegationRewards inside a frame that reverts and see whether the native store changed.
+func (w *World) probeRewards() {
+	ctx, _ := w.base.CacheContext()
+	m := &Marker{ID: 1, Kind: MkRewards, Ctx: 0}
+	w.fill(m)
+	a := (&lib.Asm{}).Call(lib.STATICCALL, m.Target, 0, nil, m.Data).RequireSuccess().Revert()
+	w.c.InstallCode(ctx, frameAddr(0), a.B)
+	r := w.call(ctx, frameAddr(0), fullGas)
+	if r.Res.Err != nil || !r.Res.Failed {
+		panic(fmt.Sprintf("rewards probe: unexpected outcome %v failed=%v", r.Res.Err, r.Res.Failed))
+	}
+	rewardsWrite = w.period(ctx) != w.basePeriod
 }
 
 func amountOfBit(b int) *big.Int {
@@ -93,6 +125,9 @@ func (w *World) fill(m *Marker) {
 		amt := new(big.Int).Sub(m.Value, fee)
 		m.Data, err = xabi.Pack("crossChain", common.Address{}, lib.ExternalAccount(w.c.Seed, "eth", m.ID),
 			amt, fee, fxtypes.MustStrToByte32("eth"), "")
+	case MkRewards:
+		m.Target = lib.StakingPrecompile
+		m.Data, err = sabi.Pack("delegationRewards", w.val1.String(), frameAddr(m.Ctx))
 	default:
 		panic("marker kind not built: " + m.Kind.String())
 	}
@@ -138,7 +173,7 @@ func (w *World) observeNatives(ctx sdk.Context, ms []*Marker, ctxs []int) (prese
 		a := frameAddr(ci)
 		delegatedBy[ci] = w.delegated(ctx, a, w.val0)
 		bal := w.c.Bal(ctx, a.Bytes(), fxtypes.DefaultDenom)
-		spent := new(big.Int).Sub(lib.FX(100).Amount.BigInt(), bal)
+		spent := new(big.Int).Sub(w.c.Bal(w.base, a.Bytes(), fxtypes.DefaultDenom), bal)
 		valueBy[ci] = spent.Sub(spent, delegatedBy[ci])
 		if ob := w.allowance(ctx, w.val1, w.owner.Acc(), a.Bytes()); ob.Cmp(big.NewInt(ownerAllow)) != 0 {
 			leaks = append(leaks, fmt.Sprintf("allowance of the outside owner to frame %d changed to %s", ci, ob))
@@ -176,6 +211,9 @@ func (w *World) observeNatives(ctx sdk.Context, ms []*Marker, ctxs []int) (prese
 				leaks = append(leaks, fmt.Sprintf("marker %d (transferFail) moved shares", m.ID))
 			}
 		}
+	}
+	for n := w.period(ctx); n > w.basePeriod; n-- {
+		present = append(present, rewardsID)
 	}
 	for _, ci := range ctxs {
 		// no amount outside the designed bits may have moved
